@@ -33,7 +33,7 @@ def feq(a, b):
     return False
 
 
-WKINDS = ["pos", "zeros", "neg", "spread", "dominant", "unit"]
+WKINDS = ["pos", "zeros", "neg", "spread", "dominant", "unit", "const"]
 
 
 def weights(rng, kind, N):
@@ -52,6 +52,8 @@ def weights(rng, kind, N):
         w = [2.0 ** -6] * N
         w[rng.randrange(N)] = 64.0
         return w
+    if kind == "const":
+        return [rng.choice([3.0, 0.25, -1.0, -2.5, 7.0])] * N
     return [1.0] * N
 
 
@@ -61,7 +63,7 @@ def main(tier, seed, replay=None):
     proof_obligations(run, "C06")
     binp = build_harness("dev")
     workdir = os.path.join(COQ, "run", "C06")
-    n = 48 if tier == "quick" else 900
+    n = 49 if tier == "quick" else 910
     pairs = []
     kinds = {}
     for i in range(n):
